@@ -13,7 +13,7 @@ prop("C07", pkg="c07", vlimit_gb=16, fuzz=[("FuzzProtoDecode", 90)],
           "unknown-field insertions whenever the bytes parse as a message of the target and decode without error; its executions are added to evaluations. One evaluation = one input through Unmarshal, Scan (Parse) and RawValue.Varint/Fixed32/Fixed64. "
           "Non-trivial = prefix that ends strictly inside a field, mutation of a length prefix, insertion not at offset 0, non-empty random input; "
           "distinct = FNV-64 of (type descriptor, kind, input bytes).",
-     quick=dict(shards=16, scale=1, timeout=900),
+     quick=dict(shards=16, scale=3, timeout=900),
      thorough=dict(shards=16, scale=18, timeout=3000),
      technique="property-based testing (rapid) of types/values x enumeration of cut points, structured wire mutations and unknown-field insertions; protowire as the reference "
                "field walker; runtime.MemStats.TotalAlloc for the allocation bound; journal-supervised shards under a 16 GiB address-space limit; native go fuzzing (go test -fuzz) with the same oracle in the thorough tier",
